@@ -95,12 +95,13 @@ func C11Scenarios(tier string) []Scenario {
 		{Name: "fraction-init-container", Node: "node-1", Target: Workload{Name: "t", Opts: PodOpts{Fraction: "0.5", InitContainer: "gpu-init"}, Fraction: true, Groups: []string{"g1"}, Count: 1, Portion: "0.50"}},
 		{Name: "dra-claim", Node: "node-1", Target: Workload{Name: "t", Opts: PodOpts{Claim: "claim-t"}, Count: 0, Portion: "0.00"}},
 		{Name: "dra-shared-claim", Node: "node-1", Target: Workload{Name: "t", Opts: PodOpts{Claim: "claim-t", ClaimShared: true}, Count: 0, Portion: "0.00"}},
+		// a GPU fraction AND a DRA claim: two plugins with side effects of their own
+		{Name: "fraction-dra-claim", Node: "node-1", Target: Workload{Name: "t", Opts: PodOpts{Fraction: "0.5", Claim: "claim-t"}, Fraction: true, Groups: []string{"g1"}, Count: 1, Portion: "0.50"}},
 		{Name: "fraction-new-group-backoff2", Node: "node-1", Target: Workload{Name: "t", Opts: PodOpts{Fraction: "0.5"}, Fraction: true, Groups: []string{"g1"}, Count: 1, Portion: "0.50", Backoff: &two}},
 	}
 	if tier == "thorough" {
 		s = append(s,
 			Scenario{Name: "multi-fraction-x2-join-one", Node: "node-1", Pre: []Workload{pre}, Target: Workload{Name: "t", Opts: PodOpts{Fraction: "0.5", NumDevices: "2"}, Fraction: true, Groups: []string{"g1", "g2"}, Count: 2, Portion: "0.50"}},
-			Scenario{Name: "fraction-dra-claim", Node: "node-1", Target: Workload{Name: "t", Opts: PodOpts{Fraction: "0.5", Claim: "claim-t"}, Fraction: true, Groups: []string{"g1"}, Count: 1, Portion: "0.50"}},
 		)
 	}
 	return s
